@@ -453,30 +453,40 @@ def concretise(s):
 # conversions used by the loader hooks
 
 
+def _py(f, x):
+    try:
+        return f(x)
+    except ValueError as e:
+        raise core.emulated(e)
+
+
 def to_float(x):
     if isinstance(x, SymStr):
         s = x.strip()
         if isinstance(s, str):
-            return float(s)
+            return _py(float, s)
         its = s.items
         if len(its) == 1 and isinstance(its[0], Num):
             v = its[0].v
             return core._real(v) if core.is_sym(v) else float(v)
+        if len(its) == 2 and isinstance(its[0], Num) and its[0].kind == "int" and its[1] == ".":
+            v = its[0].v  # '2.' : an integer literal with a trailing dot
+            return core._real(v) if core.is_sym(v) else float(v)
         if any(isinstance(i, Num) for i in its):
             raise core.emulated(ValueError(f"could not convert string to float: {s!r}"))
-        return float(concretise(s))
+        return _py(float, concretise(s))
     if isinstance(x, SymReal):
         return x
     if isinstance(x, SymInt):
         return core._real(x)
-    return float(x)
+    return _py(float, x)
 
 
 def to_int(x):
     if isinstance(x, SymStr):
         s = x.strip()
         if isinstance(s, str):
-            return int(s)
+            return _py(int, s)
         its = s.items
         if len(its) == 1 and isinstance(its[0], Num):
             if its[0].kind != "int":
@@ -496,12 +506,12 @@ def to_int(x):
                 if z3.is_int_value(e):
                     return e.as_long()
                 return SymInt(e)
-        return int(concretise(s))
+        return _py(int, concretise(s))
     if isinstance(x, SymReal):
         return core.to_int_trunc(x)
     if isinstance(x, SymInt):
         return x
-    return int(x)
+    return _py(int, x)
 
 
 def to_str(x):
@@ -584,3 +594,38 @@ def contains(a, b):
     if isinstance(b, SymStr):
         return bool(b.contains(a))
     return a in b
+
+
+def literal_tuple(x):
+    """stand-in for ast.literal_eval on the argument text of a distribution: '(a)', '(a, b)' ...
+    Contract: literal_eval of a parenthesised numeral / tuple of numerals yields that number / tuple."""
+    import ast
+
+    if isinstance(x, str):
+        return ast.literal_eval(x)
+    s = x.strip()
+    if isinstance(s, str):
+        return ast.literal_eval(s)
+    its = list(s.items)
+    if not its or its[0] != "(" or its[-1] != ")":
+        raise core.emulated(ValueError("malformed node or string"))
+    inner = SymStr(its[1:-1])
+    vals = []
+    for part in inner.split(","):
+        p = part.strip() if not isinstance(part, str) else part.strip()
+        if isinstance(p, str):
+            if p == "":
+                continue
+            try:
+                vals.append(ast.literal_eval(p))
+            except (ValueError, SyntaxError) as e:
+                raise core.emulated(ValueError(str(e)))
+            continue
+        if len(p.items) == 1 and isinstance(p.items[0], Num):
+            vals.append(p.items[0].v)
+        else:
+            raise core.emulated(ValueError("malformed node or string"))
+    has_comma = bool(inner.contains(","))
+    if len(vals) == 1 and not has_comma:
+        return vals[0]
+    return tuple(vals)
